@@ -162,25 +162,32 @@ func c15FunnelRule(c *Ctx, rule string) {
 }
 
 func c15Funnel(c *Ctx) {
-	R := c.R
 	c15FunnelRule(c, "C15.R1")
-	// R4
+	readerOpaque(c, "C15.R4", "the reader is inspected or consumed other than through the tokenizer")
+}
+
+// readerOpaque: the reader parameter of sanitize is only handed to html.NewTokenizer — no wrapper, no look-ahead: what the
+// tokenizer sees, in chunks and in errors, is what the caller's reader delivers.
+func readerOpaque(c *Ctx, rule, consequence string) {
+	R := c.R
 	s, err := model.FindSan(c.P)
-	if err == nil {
-		bad := ""
-		n := 0
-		for _, ref := range *s.Reader.Referrers() {
-			if _, isDbg := ref.(*ssa.DebugRef); isDbg {
-				continue
-			}
-			n++
-			cl, isC := ref.(*ssa.Call)
-			if !isC || !model.CalleeIs(cl.Common(), model.HTMLPkg, "", "NewTokenizer") {
-				bad = fmt.Sprintf("%T at %s", ref, c.P.Pos(ref.Pos()))
-			}
-		}
-		R.Check(bad == "" && n == 1, "C15.R4", "reader-uses", "(*Policy).sanitize: uses of the reader parameter", c.P.Pos(s.Fn.Pos()), "only html.NewTokenizer(r)", "the reader is inspected or consumed other than through the tokenizer: "+bad)
+	if err != nil {
+		R.Unknown(rule, "reader-uses", "(*Policy).sanitize", "", err.Error())
+		return
 	}
+	bad := ""
+	n := 0
+	for _, ref := range *s.Reader.Referrers() {
+		if _, isDbg := ref.(*ssa.DebugRef); isDbg {
+			continue
+		}
+		n++
+		cl, isC := ref.(*ssa.Call)
+		if !isC || !model.CalleeIs(cl.Common(), model.HTMLPkg, "", "NewTokenizer") {
+			bad = fmt.Sprintf("%T at %s", ref, c.P.Pos(ref.Pos()))
+		}
+	}
+	R.Check(bad == "" && n == 1, rule, "reader-uses", "(*Policy).sanitize: uses of the reader parameter", c.P.Pos(s.Fn.Pos()), "only html.NewTokenizer(r)", consequence+": "+bad)
 }
 
 func c15Buffer(c *Ctx) {
